@@ -19,7 +19,7 @@ CONFIG = {
     "C12": dict(gen=["Models"], drivers=["Fit"]),
     "C13": dict(gen=["Models"], drivers=["Iast"]),
     "C14": dict(gen=["Char"], drivers=["Char"]),
-    "C15": dict(gen=["Char", "Units"], drivers=[]),
+    "C15": dict(gen=["Char", "Units"], drivers=["Access"]),
     "C16": dict(gen=["Char"], drivers=["Char", "Meso"]),
     "C18": dict(gen=["Char"], drivers=["Kernel", "Char"]),
     "C19": dict(gen=["Char", "Models"], drivers=["Char", "Enthalpy"]),
@@ -32,7 +32,7 @@ CONFIG = {
     "C07": dict(gen=["Formats"], drivers=["TextCodec"]),
     "C08": dict(gen=["Schema"], drivers=["Store", "Schema"]),
     "C09": dict(gen=["Schema"], drivers=["Store"]),
-    "C10": dict(gen=["Models"], drivers=["ModelsF"], extra_prop_files=["PgVerif/Tie/Models.lean"]),
+    "C10": dict(gen=["Models"], drivers=["ModelsF", "ModelEval"], extra_prop_files=["PgVerif/Tie/Models.lean"]),
 }
 
 
